@@ -179,6 +179,13 @@ twin_entries()
 
 
 def run_one(m, keep=False):
+    try:
+        return _run_one(m, keep)
+    except subprocess.TimeoutExpired:
+        return m, 'TIMEOUT', 'the check did not finish within the self-test time limit'
+
+
+def _run_one(m, keep=False):
     tmp = tempfile.mkdtemp(prefix='pv_selftest_')
     try:
         dst = os.path.join(tmp, 'src', 'pyfvtool')
@@ -208,7 +215,7 @@ def run_one(m, keep=False):
             except SyntaxError as e:
                 return m, 'SETUP', f"mutant does not parse: {e}"
         env = dict(os.environ, PV_REPO=tmp, PV_EVIDENCE_DIR=os.path.join(tmp, 'evidence'), PV_JOBS=os.environ.get('PV_SELFTEST_JOBS', '1'))
-        p = subprocess.run([os.path.join(VERIF, 'check'), m['prop'], '--tier', 'quick'], cwd=VERIF, env=env, capture_output=True, text=True, timeout=900)
+        p = subprocess.run([os.path.join(VERIF, 'check'), m['prop'], '--tier', 'quick'], cwd=VERIF, env=env, capture_output=True, text=True, timeout=5400)
         out = p.stdout + p.stderr
         vio = [l for l in out.splitlines() if l.startswith('  rule=')]
         if m['expect'] is None:
@@ -226,8 +233,10 @@ def main():
     ap = argparse.ArgumentParser()
     ap.add_argument('--only', default=None)
     ap.add_argument('--jobs', type=int, default=12)
+    ap.add_argument('--start', type=int, default=0, help='skip the first N entries (resume)')
     a = ap.parse_args()
     ms = [m for m in M if not a.only or a.only in m['id'] or a.only == m['prop']]
+    ms = ms[a.start:]
     res = []
     with ThreadPoolExecutor(a.jobs) as ex:
         for m, status, detail in ex.map(run_one, ms):
